@@ -27,8 +27,8 @@ static const Mode g_modes[] = {
   {"model", gen_model, exec_model},
   {"crash", gen_crash, exec_crash},
   {"conc", gen_conc, exec_conc},
-#ifdef LSIM_ALL_MODES
   {"ioerr", gen_ioerr, exec_ioerr},
+#ifdef LSIM_ALL_MODES
   {"corrupt", gen_corrupt, exec_corrupt},
   {"logfmt", gen_logfmt, exec_logfmt},
   {"repair", gen_repair, exec_repair},
